@@ -1383,12 +1383,13 @@ class Process(StateMachine, persistence.Savable, metaclass=ProcessStateMachineMe
                     # Everything nominal so transition to the next state
                     self.transition_to(next_state)
 
-                if (
+                while (
                     self._interrupt_action is not None
                     and not self._interrupt_action.done()
                     and not self.has_terminated()
                 ):
-                    # Requested while transitioning (e.g. by a listener), enact it right away
+                    # Requested while transitioning (e.g. by a listener), enact it right away; enacting it is a
+                    # transition too, so a further request may have been made by the time it returns
                     self._interrupt_action.run(None)
 
         finally:
